@@ -46,6 +46,29 @@ def find_top(s, pat):
 
 class Unsupported(Exception): pass
 
+def parse_call_term(t):
+    """`lhs = callee(args) -> [return: bbN, unwind ...]`  ->  (lhs, callee, args, N or None); None if not a call"""
+    i = t.find(' -> [return: bb'); nxt = None
+    if i >= 0:
+        nm = re.match(r' -> \[return: bb(\d+), unwind', t[i:])
+        if not nm: return None
+        nxt = int(nm.group(1))
+    else:
+        i = t.find(' -> unwind')
+        if i < 0: return None
+    body = t[:i]
+    j = find_top(body, ' = ')
+    if j < 0 or not body.endswith(')'): return None
+    lhs, call = body[:j], body[j + 3:]
+    depth = 0
+    for k in range(len(call) - 1, -1, -1):
+        if call[k] == ')': depth += 1
+        elif call[k] == '(':
+            depth -= 1
+            if depth == 0:
+                return (lhs, call[:k], call[k + 1:-1], nxt)
+    return None
+
 # ----------------------------------------------------------------------------- source scan
 
 def scan_source(root):
@@ -212,6 +235,7 @@ class Ctx:
 
     def enum_lean(self, path):
         """path like xyz::Kind / grayscale::Kind / AnsiKind / error::Error"""
+        if 'napi' in path: return None
         segs = path.split('::'); name = segs[-1]
         cands = [(k, ln) for k, ln in self.enum_key.items() if k[1] == name]
         if not cands: return None
@@ -243,6 +267,7 @@ class Ctx:
             if t.startswith('mut '): t = t[4:]
             return self.lean_ty(t, tparams)
         if t == '()': return 'Unit'
+        if t.startswith('{closure@'): return 'Unit'
         if t.startswith('('):
             parts = split_top(t[1:-1])
             if len(parts) == 1: return self.lean_ty(parts[0], tparams)
@@ -257,7 +282,7 @@ class Ctx:
         i = find_top(t, '<')
         args = []
         if i >= 0 and t.endswith('>'):
-            args = split_top(t[i + 1:-1]); t = t[:i]
+            args = [a for a in split_top(t[i + 1:-1]) if not a.startswith("'")]; t = t[:i]
         name = t.split('::')[-1]
         if name == 'f64': return 'α'
         if name in PRIM_NAT or name == 'char': return 'Nat'
@@ -266,8 +291,16 @@ class Ctx:
         if name in ('String', 'str'): return 'Str'
         if name == 'Vec': return f'(List {self.lean_ty(args[0], tparams)})'
         if name == 'Option': return f'(Option {self.lean_ty(args[0], tparams)})'
-        if name == 'Result': return f'(Except {self.lean_ty(args[1], tparams)} {self.lean_ty(args[0], tparams)})'
+        if name == 'Result':
+            if args[0].strip().endswith('Infallible'): return self.lean_ty(args[1], tparams)
+            return f'(Except {self.lean_ty(args[1], tparams)} {self.lean_ty(args[0], tparams)})'
         if name == 'RangeInclusive': return f'(RangeInclusive {self.lean_ty(args[0], tparams)})'
+        if name == 'JsObject': return '(JsObject α)'
+        if name == 'Env': return 'NapiEnv'
+        if name == 'Status': return 'NapiStatus'
+        if name == 'Error' and 'napi' in t: return 'NapiError'
+        if name == 'ControlFlow': return f'(ControlFlow {self.lean_ty(args[0], tparams)} {self.lean_ty(args[1], tparams) if len(args) > 1 else "Unit"})'
+        if name in ('IntoIter', 'Iter'): return f'(List {self.lean_ty(args[-1], tparams)})'
         if name in tparams: return name
         el = self.enum_lean(t)
         if el is not None and name not in self.structs:
@@ -676,6 +709,7 @@ class Tr:
             return self.place(self.parse_place(inner), env)[0]
         m = re.match(r'^discriminant\((.*)\)$', rv)
         if m: raise Unsupported('discriminant outside switch')
+        if rv in ('InvalidArg', 'NumberExpected', 'StringExpected', 'ObjectExpected', 'GenericFailure'): return f'NapiStatus.{rv}'
         if rv.startswith('['):
             els = [self.operand(e, env) for e in split_top(rv[1:-1])]
             am = re.match(r'^\[(.*); (\d+)\]$', dst_t.strip()) if dst_t else None
@@ -741,6 +775,29 @@ class Tr:
         if re.match(r'^std::boxed::box_assume_init_into_vec_unsafe::<.*>$', callee):
             if self.boxarr is None: raise Unsupported('vec! idiom without array store')
             return self.boxarr, 'pure'
+        # ---- N-API / Try / iterator shims (js feature)
+        m = re.match(r'^napi::bindgen_runtime::js_values::object::<impl JsObject>::(get|set)::<&str, (.*)>$', callee)
+        if m:
+            kind = {'f64': 'Num', 'u8': 'Byte', 'String': 'Str', 'std::string::String': 'Str', 'Vec<JsObject>': 'Objs', 'Vec<napi::JsObject>': 'Objs'}.get(m.group(2).strip())
+            if kind is None: raise Unsupported('js value kind ' + m.group(2))
+            a = av()
+            if m.group(1) == 'get': return f'(Js.get{kind} {a[0]} {a[1]})', 'pure'
+            return (f'Js.set{kind}', f'{a[1]} {a[2]}', '(Except.ok ())'), 'mutself_ret'
+        if callee == 'napi::Env::create_object': return f'(Js.create_object {av()[0]})', 'pure'
+        if callee == 'napi::Error::from_status': return f'(NapiError.from_status {av()[0]})', 'pure'
+        if re.match(r'^<.* as Try>::branch$', callee): return f'(Try.branch {av()[0]})', 'pure'
+        if re.match(r'^<.* as FromResidual<.*>>::from_residual$', callee): return f'(Try.from_residual {av()[0]})', 'pure'
+        if re.match(r'^Option::<.*>::ok_or::<.*>$', callee): a = av(); return f'(Option.okOr {a[0]} {a[1]})', 'pure'
+        if re.match(r'^(std::result::)?Result::<.*>::and_then::<.*>$', callee):
+            r0 = self.operand(args[0], env)[0]
+            return f'(Except.andThen {r0} (fun v => {self.closure_name()} () v))', 'pure'
+        if re.match(r'^Option::<.*>::ok_or_else::<.*>$', callee):
+            r0 = self.operand(args[0], env)[0]
+            return f'(Option.okOr {r0} ({self.closure_name()} ()))', 'pure'
+        if re.match(r'^<&?(std::vec::)?Vec<.*> as IntoIterator>::into_iter$', callee): return av()[0], 'pure'
+        if re.match(r'^<.*(IntoIter|Iter)<.*> as Iterator>::next$', callee):
+            return ('List.tail', '', None), 'iter_next'
+        if re.match(r'^<(String|std::string::String|u8|f64) as Clone>::clone$', callee): return av()[0], 'pure'
         # generic dictionary calls  <T as Into<Rgb>>::into
         m = re.match(r'^<(\w+) as (.*)>::(\w+)$', callee)
         if m and m.group(1) in self.tparams:
@@ -759,6 +816,15 @@ class Tr:
             targs = split_top(m.group(3)) if m.group(3) else []
             return self.crate_call(name, av(), args, env, targs)
         raise Unsupported('call ' + callee)
+
+    def closure_name(self):
+        owner = self.f.lean_name
+        ks = sorted(b for b, blk in self.f.blocks.items() if blk['term'] and 'const ZeroSized: {closure@' in blk['term'] and not blk['cleanup'])
+        k = ks.index(self.cur_bb)
+        name = f'{owner}.closure{k}'
+        if name not in self.ctx.fns: raise Unsupported('closure ' + name)
+        self.calls.add(name)
+        return name
 
     def crate_call(self, name, argv, args, env, targs):
         if name not in self.ctx.fns: raise Unsupported('unknown callee ' + name)
@@ -896,6 +962,7 @@ class Tr:
             if bb in path: raise Unsupported('irreducible loop')
             return self.make_loop(bb, env, depth)
         blk = self.f.blocks[bb]
+        self.cur_bb = bb
         env = dict(env)
         for k in ('#payload', '#const'):
             if k in env: env[k] = dict(env[k])
@@ -946,17 +1013,42 @@ class Tr:
                     else: chain.el = [n]
                     chain = n
             out.append(node); return out
-        m = re.match(r'^(.*?) = (.*?)\((.*)\) -> \[return: bb(\d+), unwind.*\]$', t, re.S) or re.match(r'^(.*?) = (.*?)\((.*)\) -> unwind.*$', t, re.S)
-        if m:
-            lhs, callee, args = m.group(1), m.group(2), split_top(m.group(3))
-            nxt = int(m.group(4)) if m.lastindex >= 4 else None
+        cm = parse_call_term(t)
+        m = cm
+        if cm:
+            lhs, callee, args, nxt = cm[0], cm[1], split_top(cm[2]), cm[3]
             lpl = self.parse_place(lhs)
             if lpl[0] != 'local': raise Unsupported('call dest ' + lhs)
             i = lpl[1]
             if re.match(r'^Box::<.*>::new_uninit$', callee):
                 self.skipped.add(i)
                 return out + self.walk(nxt, env, depth + 1, path, loopctx)
+            self.cur_bb = bb
             e, mode = self.call(callee, args, env)
+            if mode in ('mutself_ret', 'iter_next'):
+                am = re.match(r'^(?:move|copy) _(\d+)$', args[0].strip())
+                r = int(am.group(1)) if am else None
+                src = self.refsrc.get(r)
+                if src is None or src[0] != 'local': raise Unsupported('&mut call pattern ' + t)
+                tgt = src[1]
+                fn_, rest, retexpr = e
+                if mode == 'iter_next':
+                    nm = self.fresh(i)
+                    out.append(Let(nm, None, f'(List.head? {env[tgt]})', user=True)); env[i] = nm
+                    name = self.fresh(tgt)
+                    out.append(Let(name, None, f'(List.tail {env[tgt]})', user=True))
+                else:
+                    name = self.fresh(tgt)
+                    out.append(Let(name, None, f'({fn_} {env[tgt]} {rest})', user=True))
+                    nm = self.fresh(i)
+                    try: lt = self.lty(self.ty(i))
+                    except Unsupported: lt = None
+                    out.append(Let(nm, lt, retexpr, user=False)); env[i] = nm
+                env[tgt] = name
+                for r2, s2 in self.refsrc.items():
+                    if s2 == ('local', tgt): env[r2] = name
+                if nxt is None: out.append(Panic('diverging call')); return out
+                return out + self.walk(nxt, env, depth + 1, path, loopctx)
             if mode in ('mutself', 'mutcrate'):
                 am = re.match(r'^(?:move|copy) _(\d+)$', args[0].strip())
                 r = int(am.group(1)) if am else None
@@ -1022,6 +1114,7 @@ class Tr:
         bname = base.split('::')[-1]
         if bname == 'Option': variants = [('none', 'None', []), ('some', 'Some', [targs[0]])]
         elif bname == 'Result': variants = [('Except.ok', 'Ok', [targs[0]]), ('Except.error', 'Err', [targs[1]])]
+        elif bname == 'ControlFlow': variants = [('ControlFlow.Continue', 'Continue', [targs[1] if len(targs) > 1 else '()']), ('ControlFlow.Break', 'Break', [targs[0]])]
         else:
             el = self.ctx.enum_lean(base)
             if not el: raise Unsupported('switch on ' + t)
@@ -1106,6 +1199,7 @@ def lean_fn_name(ctx, f):
 def main():
     mir_path, root, out_path = sys.argv[1], sys.argv[2], sys.argv[3]
     report_path = sys.argv[sys.argv.index('--report') + 1] if '--report' in sys.argv else None
+    JS = '--js' in sys.argv
     text = open(mir_path).read()
     ctx = Ctx(root)
     fns, const_bodies = [], []
@@ -1131,14 +1225,32 @@ def main():
     report = {'translated': [], 'skipped': [], 'unsupported': [], 'handwritten': []}
     # ---- name functions
     named = []
+    JSFN = ('from_js_object', 'into_js_object')
+    if JS:
+        const_bodies = []
+        keep = []
+        for f in fns:
+            base = re.sub(r'::\{closure#\d+\}$', '', f.path)
+            if base.split('::')[-1] in JSFN: keep.append(f)
+        fns = keep
     for f in fns:
+        if f.is_closure and JS:
+            km = re.search(r'::\{closure#(\d+)\}$', f.path)
+            of = Fn(); of.path = re.sub(r'::\{closure#\d+\}$', '', f.path); of.fnname = of.path.split('::')[-1]
+            im = re.search(r'<impl at ([^>]+)>', of.path); of.impl_loc = im.group(1) if im else None
+            oname, opath = lean_fn_name(ctx, of)
+            if oname is None: report['unsupported'].append((f.path, 'closure owner')); continue
+            f.lean_name = f'{oname}.closure{km.group(1)}'; f.tparams = (); f.mutself = False; f.monadic = False; f.needs_fuel = False; f.dicts = []
+            f.alpha = 'implicit' if 'f64' in ' '.join(t for _, t in f.params) + f.ret or 'JsObject' in ' '.join(t for _, t in f.params) + f.ret else 'none'
+            f.trait = None; f.selft = None; f.file = opath
+            ctx.fns[f.lean_name] = f; named.append(f); continue
         if f.is_closure: report['skipped'].append((f.path, 'closure')); continue
         # tuple-struct / enum variant constructor shims
         if f.impl_loc is None and (f.fnname in ctx.structs or re.match(r'^(error::Error|Target)::', f.path) or any(f.fnname == v for vs in ctx.enums.values() for v, _ in vs) and '::' in f.path):
             report['skipped'].append((f.path, 'constructor shim')); continue
         name, path = lean_fn_name(ctx, f)
         if f.fnname in ('fmt', 'clone'): report['skipped'].append((f.path, 'derive ' + f.fnname)); continue
-        if path in ctx.skip_files: report['handwritten'].append((f.path, name)); continue
+        if path in ctx.skip_files and not JS: report['handwritten'].append((f.path, name)); continue
         if name is None: report['unsupported'].append((f.path, 'impl header')); continue
         f.lean_name = name
         # generics
@@ -1265,6 +1377,26 @@ def main():
         except Unsupported as e:
             report['unsupported'].append((f.lean_name, str(e)))
 
+    if JS:
+        out = ['-- GENERATED by tools/mir2lean.py --js from rustc MIR (feature js: expansions of the derive macros); do not edit.',
+               'import LymuiVerif.Core.Js', 'import LymuiVerif.Gen.Types', 'set_option linter.unusedVariables false', 'namespace Gen', 'open Flt', '']
+        names = list(emitted)
+        deps = {n: [m for m in emitted[n][1] if m in emitted and m != n] for n in names}
+        done, order = set(), []
+        def visit(n, stack=()):
+            if n in done or n in stack: return
+            for d in deps[n]: visit(d, stack + (n,))
+            done.add(n); order.append(n)
+        for n in names: visit(n)
+        for n in order: out.append(emitted[n][0]); out.append('')
+        out.append('end Gen')
+        write_if_changed(os.path.join(out_path, 'JsModel.lean'), '\n'.join(out) + '\n')
+        if report_path:
+            report['structs'] = {k: v for k, v in ctx.structs.items()}
+            json.dump(report, open(report_path, 'w'), indent=1, default=str)
+        sys.stderr.write(f'mir2lean --js: translated {len(report["translated"])}, unsupported {len(report["unsupported"])}\n')
+        for b in report['unsupported']: sys.stderr.write(f'  - {b[0]}: {str(b[1])[:160]}\n')
+        return
     # ---- output
     types = ['-- GENERATED by tools/mir2lean.py from lymui sources (struct/enum items); do not edit.', 'import LymuiVerif.Core.Flt', 'namespace Gen', '']
     for name, info in ctx.structs.items():
